@@ -301,7 +301,7 @@ func c03Malformed(c *Ctx, r *RNG, a c03Archive, qs []cid.Cid, budget int) {
 
 func init() {
 	register("c03", func(c *Ctx) {
-		nArch := 150 * c.Scale
+		nArch := 130 * c.Scale
 		for n := 0; n < nArch; n++ {
 			r := c.R.Fork()
 			a := genC03Archive(r, c)
